@@ -20,7 +20,8 @@ class KeyCalc(object):
         else:
             key_list = re.findall(r'\{(.*?)\}', key_spec)
         self.key_spec = key_spec
-        self.key_list = key_list
+        # the row number is no field of the row
+        self.key_list = [key for key in key_list if key != '#']
 
     def __call__(self, row, row_number):
         return self.key_spec.format(**{**row, '#': row_number})
